@@ -138,6 +138,23 @@ class Opaque:
         return f"Opaque({self.tag!r})"
 
 
+def fn_list():
+    return []
+
+
+def fn_dict():
+    return {}
+
+
+# default factories: the classes `list` / `dict` (the generators inline them as `[]` / `{}`) and plain functions producing equal
+# values (called by the generated code: `value != dfl()`)
+FACTORIES = {"list": list, "dict": dict, "fn_list": fn_list, "fn_dict": fn_dict}
+
+
+def factory_value(name):
+    return FACTORIES[name]()
+
+
 def enc_val(v):
     if v is None or type(v) in (bool, int, str):
         return v
@@ -372,7 +389,7 @@ def gen_fields(rng, kind, n=None, p_default=0.5):
             dflt = {"v": rng.choice(["", "s"])}
         else:
             dflt = rng.choice([{"v": None}, {"v": True}, {"v": 0}, {"v": "d"}, {"factory": "list"}, {"factory": "dict"},
-                               {"v": 1}, {"v": False}])
+                               {"v": 1}, {"v": False}, {"factory": "fn_list"}, {"factory": "fn_dict"}])
         fields.append({"id": name, "required": dflt is None, "default": dflt, "type": tp})
     return fields
 
@@ -606,7 +623,7 @@ def lean_field(f, direction="inp"):
     out = {"id": f["id"], "required": f["required"] if direction == "inp" else f.get("out_required", True)}
     d = f.get("default")
     if d is not None:
-        out["default"] = {"v": enc_val([] if d.get("factory") == "list" else {} if d.get("factory") == "dict" else d["v"])}
+        out["default"] = {"v": enc_val(factory_value(d["factory"]) if "factory" in d else d["v"])}
     return out
 
 
@@ -767,7 +784,7 @@ class Real:
         if d is None:
             return dataclasses.MISSING, dataclasses.MISSING
         if "factory" in d:
-            return dataclasses.MISSING, (list if d["factory"] == "list" else dict)
+            return dataclasses.MISSING, FACTORIES[d["factory"]]
         return d["v"], dataclasses.MISSING
 
     def build_classes(self, prog):
@@ -795,7 +812,7 @@ class Real:
                 else:
                     d = f["default"]
                     if "factory" in d:
-                        ns["_dfl"][f["id"]] = [] if d["factory"] == "list" else {}
+                        ns["_dfl"][f["id"]] = factory_value(d["factory"])
                     else:
                         ns["_dfl"][f["id"]] = d["v"]
                     params.append(f"{f['id']}: {tp} = _dfl[{f['id']!r}]")
@@ -2416,7 +2433,7 @@ def py_crown_from_paths(prog, eff, direction):
                     f = by_id[c["id"]]
                     if f["default"] is not None and py_omit_holds(eff, f):
                         d = f["default"]
-                        sv.append([k, enc_val([] if d.get("factory") == "list" else {} if d.get("factory") == "dict" else d["v"])])
+                        sv.append([k, enc_val(factory_value(d["factory"]) if "factory" in d else d["v"])])
             out["sieves"] = sorted(sv)
         return out
 
@@ -2436,7 +2453,7 @@ def py_crown_from_paths(prog, eff, direction):
 def plain_default(f):
     d = f["default"]
     if "factory" in d:
-        return [] if d["factory"] == "list" else {}
+        return factory_value(d["factory"])
     return d["v"]
 
 
